@@ -1,5 +1,9 @@
-"""PDB text generators and mutators (all randomness from the caller's rng)."""
-from pathlib import Path
+"""PDB text generators and mutators (all randomness from the caller's rng).
+
+A structure is a list of lines (each ending in a newline).  Residues are cut from the repository's
+own test files, so generated inputs are mostly valid chemistry; mutators then perturb records,
+labels, termini, conformations and geometry."""
+import math
 from .common import REPO
 
 PDBDIR = REPO / "tests" / "pdb"
@@ -16,13 +20,216 @@ def test_files(names=None):
     return out
 
 
+def lines_of(text):
+    return text.splitlines(keepends=True)
+
+
 def is_atom(line):
     return line[:6] in ("ATOM  ", "HETATM")
 
 
 def setcols(line, a, b, text):
     """replace columns a..b (0-based, b exclusive), padding the line if needed"""
-    line = line.rstrip("\n")
-    if len(line) < b:
-        line = line.ljust(b)
-    return line[:a] + text + line[b:]
+    nl = "\n" if line.endswith("\n") else ""
+    body = line.rstrip("\n")
+    if len(body) < b:
+        body = body.ljust(b)
+    return body[:a] + text + body[b:] + nl
+
+
+def res_key(line):
+    return (line[21], line[22:26], line[26], line[17:20])
+
+
+def split_residues(lines):
+    """[(kind, key, [lines])] with kind 'res' (consecutive atom records of one residue) or 'rec' (any other line)"""
+    out = []
+    for l in lines:
+        if is_atom(l):
+            k = res_key(l)
+            if out and out[-1][0] == "res" and out[-1][1] == k:
+                out[-1][2].append(l)
+            else:
+                out.append(("res", k, [l]))
+        else:
+            out.append(("rec", l[:6], [l]))
+    return out
+
+
+def flatten(items):
+    return [l for it in items for l in it[2]]
+
+
+_LIB = None
+
+
+def library():
+    """chains of the test files as lists of residues: {(file, chain): [residue items]}; waters dropped"""
+    global _LIB
+    if _LIB is None:
+        _LIB = {}
+        for name, text in test_files(["1FTJ-Chain-A", "3SGB", "1HPX", "4DFR"]):
+            for it in split_residues(lines_of(text)):
+                if it[0] != "res" or it[1][3] in ("HOH",):
+                    continue
+                if it[2][0].startswith("HETATM"):
+                    _LIB.setdefault((name, "het"), []).append(it)
+                else:
+                    _LIB.setdefault((name, it[1][0]), []).append(it)
+    return _LIB
+
+
+def fragment(rng, nres=None, with_oxt=None):
+    """a run of consecutive protein residues from a random test-file chain"""
+    lib = library()
+    keys = [k for k in lib if k[1] != "het"]
+    k = keys[rng.randrange(len(keys))]
+    chain = lib[k]
+    n = nres or rng.randint(4, 14)
+    i = rng.randrange(0, max(1, len(chain) - n))
+    return flatten(chain[i:i + n])
+
+
+def relabel(lines, chain=None, shift=0, renumber_from=None, icode=None):
+    """set the chain id / shift residue numbers / renumber consecutively / set an insertion code"""
+    out = []
+    cur, num = None, renumber_from
+    for l in lines:
+        if is_atom(l):
+            if renumber_from is not None:
+                k = res_key(l)
+                if k != cur:
+                    if cur is not None:
+                        num += 1
+                    cur = k
+                l = setcols(l, 22, 26, "%4d" % num)
+            elif shift:
+                l = setcols(l, 22, 26, "%4d" % (int(l[22:26]) + shift))
+            if chain is not None:
+                l = setcols(l, 21, 22, chain)
+            if icode is not None:
+                l = setcols(l, 26, 27, icode)
+        out.append(l)
+    return out
+
+
+def renumber_serials(lines, start=1):
+    out, n = [], start
+    for l in lines:
+        if is_atom(l):
+            l = setcols(l, 6, 11, "%5d" % n)
+            n += 1
+        out.append(l)
+    return out
+
+
+def coords(line):
+    return float(line[30:38]), float(line[38:46]), float(line[46:54])
+
+
+def set_coords(line, x, y, z):
+    return setcols(line, 30, 54, "%8.3f%8.3f%8.3f" % (x, y, z))
+
+
+def translate(lines, dx, dy, dz):
+    out = []
+    for l in lines:
+        if is_atom(l):
+            x, y, z = coords(l)
+            l = set_coords(l, x + dx, y + dy, z + dz)
+        out.append(l)
+    return out
+
+
+def rotations24():
+    """the 24 proper rotations that permute the axes (signed permutation matrices of determinant +1)"""
+    import itertools
+    mats = []
+    for perm in itertools.permutations(range(3)):
+        for signs in itertools.product((1, -1), repeat=3):
+            m = [[0] * 3 for _ in range(3)]
+            for i in range(3):
+                m[i][perm[i]] = signs[i]
+            det = (m[0][0] * (m[1][1] * m[2][2] - m[1][2] * m[2][1]) - m[0][1] * (m[1][0] * m[2][2] - m[1][2] * m[2][0])
+                   + m[0][2] * (m[1][0] * m[2][1] - m[1][1] * m[2][0]))
+            if det == 1:
+                mats.append(m)
+    return mats
+
+
+def rotate(lines, m):
+    """apply a signed permutation matrix exactly (on the 0.001 grid)"""
+    out = []
+    for l in lines:
+        if is_atom(l):
+            v = [round(c * 1000) for c in coords(l)]
+            w = [sum(m[i][j] * v[j] for j in range(3)) for i in range(3)]
+            l = set_coords(l, w[0] / 1000.0, w[1] / 1000.0, w[2] / 1000.0)
+        out.append(l)
+    return out
+
+
+def bbox(lines):
+    cs = [coords(l) for l in lines if is_atom(l)]
+    return [(min(c[i] for c in cs), max(c[i] for c in cs)) for i in range(3)]
+
+
+def add_oxt(lines):
+    """give the last residue a terminal oxygen next to its C (if it has C and O)"""
+    items = split_residues(lines)
+    last = [it for it in items if it[0] == "res" and it[2][0].startswith("ATOM")][-1]
+    byname = {l[12:16].strip(): l for l in last[2]}
+    if "C" not in byname or "O" not in byname or "OXT" in byname or "CA" not in byname:
+        return lines
+    c, o, ca = coords(byname["C"]), coords(byname["O"]), coords(byname["CA"])
+    # reflect O through the C-CA axis direction: OXT = C + (C - CA) + (C - O), rescaled to 1.25 A
+    v = [2 * c[i] - ca[i] - o[i] for i in range(3)]
+    n = math.sqrt(sum(t * t for t in v)) or 1.0
+    p = [round(c[i] + 1.25 * v[i] / n, 3) for i in range(3)]
+    new = setcols(byname["O"], 12, 16, " OXT")
+    new = set_coords(new, *p)
+    idx = lines.index(last[2][-1])
+    return lines[:idx + 1] + [new] + lines[idx + 1:]
+
+
+JUNK = ["REMARK 465 MISSING RESIDUES\n", "ANISOU    1  N   ALA A   1     2406   1892   1614    198    519   -328       N\n",
+        "CONECT    1    2\n", "HEADER    HYDROLASE\n", "SEQRES   1 A   21  GLY ILE VAL GLU GLN\n", "\n", "MASTER        0    0\n",
+        "SIGATM    1  N   ALA A   1       0.010   0.010   0.010  0.00  0.00           N\n", "ENDMDL\n", "END\n", "TERM\n",
+        "HETNAM     KNI SOMETHING\n", "CRYST1   50.000   50.000   50.000  90.00  90.00  90.00 P 1           1\n"]
+
+WATER = "HETATM%5d  O   HOH %s%4d    %8.3f%8.3f%8.3f  1.00 20.00           O\n"
+
+
+def water(rng, lines, resname="HOH"):
+    (x0, x1), (y0, y1), (z0, z1) = bbox(lines)
+    l = WATER % (rng.randint(1, 99999), rng.choice("AB W"), rng.randint(1, 999), rng.uniform(x0 - 3, x1 + 3), rng.uniform(y0 - 3, y1 + 3), rng.uniform(z0 - 3, z1 + 3))
+    return setcols(l, 17, 20, resname)
+
+
+def insert_at_random(rng, lines, new, n=1):
+    out = list(lines)
+    for _ in range(n):
+        out.insert(rng.randint(0, len(out)), new if isinstance(new, str) else rng.choice(new))
+    return out
+
+
+def multichain(rng, nchains=None, ter="TER   \n", oxt_prob=0.5, chains="ABCDEFG ", separation=60.0):
+    """a multi-chain structure from library fragments, chains placed `separation` A apart"""
+    n = nchains or rng.randint(2, 3)
+    out = []
+    ids = rng.sample(list(chains), n)
+    for i, c in enumerate(ids):
+        frag = fragment(rng)
+        (x0, x1), (y0, y1), (z0, z1) = bbox(frag)
+        frag = translate(frag, round(-x0 + i * separation, 3), round(-y0, 3), round(-z0, 3))
+        frag = relabel(frag, chain=c)
+        if rng.random() < oxt_prob:
+            frag = add_oxt(frag)
+        out += frag
+        if ter is not None and (rng.random() < 0.8 or i == n - 1):
+            out.append(ter)
+    return renumber_serials(out), ids
+
+
+def text(lines):
+    return "".join(lines)
